@@ -18,8 +18,7 @@ RULE = (
     "loaded. evaluations = sequences; non-trivial key = (audit kind, operation after which a checkpoint was audited); "
     "distinct_nontrivial counts distinct keys."
 )
-ASSUMPTIONS = ["stub proposal/kernel/model; sequences bounded at 8 operations, 2 live instances, 1 file",
-               "a refit between resume_from_file and sample_posterior is the caller mixing proposals in memory and is not generated"]
+ASSUMPTIONS = ["stub proposal/kernel/model; sequences bounded at 8 operations, 2 live instances, 1 file"]
 COMPONENTS = {"real": ["Aspire.fit / sample_posterior / auto_checkpoint / resume_from_file / save_config / save_flow", "MiniPCNSMC and EmceeSMC checkpointing",
                        "ImportanceSampler", "AspireFile / HDF5"],
               "stub": ["SimFlow", "minipcn.Sampler", "emcee.EnsembleSampler", "analytic likelihood/prior"], "not_run": ["zuko/flowjax in this check", "blackjax"]}
@@ -42,7 +41,7 @@ def directed_sequences():
                                 if s2 == "importance" and (rn or crash not in (None, 0)):
                                     continue
                                 if via_resumed and refit is not None:
-                                    continue  # a refit between resume_from_file and sampling is not generated (ASSUMPTIONS)
+                                    continue  # (the refit here happens BEFORE the rebuild; a refit ON the rebuilt instance is the second block)
                                 ops = [["fit", {"proc": 0, "data": "A", "with_path": False, "overwrite": False}]]
                                 if ctx == "auto":
                                     ops.append(["enter_auto", {"proc": 0, "every": 1}])
@@ -56,6 +55,23 @@ def directed_sequences():
                                 ops.append(["sample", {"proc": second, "sampler": s2, "explicit_path": ctx == "path" and not via_resumed,
                                                        "crash_at": crash, "resume_none": rn}])
                                 out.append(ops)
+    # a refit ON the instance that resume_from_file built, between the rebuild and the next run (eighth round): the checkpoint
+    # that instance holds primed was weighted under the proposal the refit replaces
+    for ctx in ("auto", "path"):
+        for s1 in ("smc", "emcee_smc"):
+            for refit in ("plain", "path", "path_overwrite"):
+                for s2 in ("smc", "emcee_smc", "importance"):
+                    for crash in (None, 0, 2):
+                        if s2 == "importance" and crash is not None:
+                            continue
+                        ops = [["fit", {"proc": 0, "data": "A", "with_path": False, "overwrite": False}]]
+                        if ctx == "auto":
+                            ops.append(["enter_auto", {"proc": 0, "every": 1}])
+                        ops.append(["sample", {"proc": 0, "sampler": s1, "explicit_path": ctx == "path", "crash_at": None, "resume_none": False}])
+                        ops.append(["resume_and_sample", {"in_context": False, "sampler": None, "override_at": "ctor"}])
+                        ops.append(["fit", {"proc": 1, "data": "B", "with_path": refit != "plain", "overwrite": refit == "path_overwrite"}])
+                        ops.append(["sample", {"proc": 1, "sampler": s2, "explicit_path": ctx == "path", "crash_at": crash, "resume_none": False}])
+                        out.append(ops)
     return out
 
 
